@@ -56,7 +56,8 @@ def fmt08X (v : Nat) : String :=
   let ds := hexDigitsAux 16 v []
   String.ofList (List.replicate (8 - ds.length) '0' ++ ds)
 
-/-- ctlFormatLSN: `high := uint32(lsn >> 32); low := uint32(lsn & 0xFFFFFFFF); Sprintf("%X/%X", high, low)` -/
+/-- Go: formatLSN (named ctlFormatLSN here: the name Model.formatLSN is used by another area's model).
+`high := uint32(lsn >> 32); low := uint32(lsn & 0xFFFFFFFF); Sprintf("%X/%X", high, low)` -/
 def ctlFormatLSN (lsn : Nat) : String :=
   fmtX ((lsn >>> 32) % 2 ^ 32) ++ "/" ++ fmtX ((lsn &&& 0xFFFFFFFF) % 2 ^ 32)
 
